@@ -26,6 +26,7 @@ type c06Row struct {
 	Av      map[string]any `json:"av"`
 	Canon   map[string]any `json:"canon"`
 	Json    map[string]any `json:"json"`
+	Nulled  map[string]any `json:"jsonNulled"` // the same document with every removed field present and null
 	Ror2    []any          `json:"ror2"`
 	Missing [][]struct {
 		Key []any `json:"key"`
@@ -77,6 +78,17 @@ func runC06(rowsFile string, reserved map[string]map[string]bool, b *hc.Builder)
 		for v, vn := range []string{"canonical", "reversed-keys", "whitespace", "unknown-fields-first", "unknown-fields-last"} {
 			doc := refJSON(b, row.Json, v)
 			readings = append(readings, reading{"json/" + vn, "", func() (reflect.Value, error) { return decode(flavours()[0], doc, typ) }})
+		}
+		if row.Nulled != nil {
+			// "absent or null": removed fields written as null members instead (plain, and among unknown fields)
+			for _, v := range []int{0, 3} {
+				doc := refJSON(b, row.Nulled, v)
+				readings = append(readings, reading{[]string{"json/nulled", "", "", "json/nulled-unknown-fields-first"}[v], "", func() (reflect.Value, error) { return decode(flavours()[0], doc, typ) }})
+			}
+			readings = append(readings, reading{"untyped/nulled", "", func() (reflect.Value, error) {
+				p := reflect.New(typ)
+				return p, p.Interface().(restlicodec.Unmarshaler).UnmarshalRestLi(restlicodec.NewInterfaceReader(b.PlainOf(row.Nulled)))
+			}})
 		}
 		readings = append(readings, reading{"untyped", "", func() (reflect.Value, error) {
 			p := reflect.New(typ)
